@@ -70,11 +70,52 @@ def run(chk):
     chk.call(r4_constitution, chk, j)
     chk.call(r5_geometry_order, chk, j)
     chk.call(r6_iterated_join, chk)
+    chk.call(r8_copy_atoms_reaches_the_base, chk)
+    chk.call(r3b_charge_override_in_the_base, chk)
     # R7: "moved rigidly, never mirrored" for exactly (anti)parallel attachment vectors rests on the half-turn branch of
     # rotation_matrix_from_vectors (join calls it with (v2, -v1)): the clause C11.R6 decides, evaluated under this property
     from . import c11
 
     chk.borrow("C12.R7", c11.r6_antiparallel_branch, chk)
+
+
+def r3b_charge_override_in_the_base(chk):
+    """join hands its `charge` (an explicit 0 included) to `cls(atoms, ..., charge=charge)`; the list-of-atoms branch of the base
+    constructor must keep it: `self.charge = charge or <something computed>` replaces an explicit or computed 0 (`charge or 0` is the
+    harmless spelling of "None means 0")."""
+    prog = chk.prog
+    pm = prog.cls("molli.chem.atom:Promolecule")
+    init = prog.method(pm, "__init__")
+    chk.require(init is not None, "Promolecule.__init__ vanished")
+    chk.analysed(init)
+    from ..canon import path_conditions
+
+    bad = None
+    n = 0
+    for t in walk_no_nested(init.node):
+        if isinstance(t, ast.Assign) and any(norm(x) == "self.charge" for x in t.targets):
+            n += 1
+            v = t.value
+            conds = " and ".join(norm(c) for c in path_conditions(init.node, t))
+            in_copy_branch = "Promolecule" in conds or "is None" in conds
+            if isinstance(v, ast.BoolOp) and isinstance(v.op, ast.Or) and isinstance(v.values[0], ast.Name) and v.values[0].id == "charge" \
+                    and not all(isinstance(x, ast.Constant) and x.value == 0 for x in v.values[1:]) and not in_copy_branch:
+                bad = bad or t
+            if isinstance(v, ast.IfExp) and isinstance(v.test, ast.Name) and v.test.id == "charge" and not in_copy_branch:
+                bad = bad or t
+    chk.require(n >= 1, "Promolecule.__init__ no longer stores self.charge")
+    chk.decide(bad is None, "C12.R3", f"{init.key}:explicit-zero-charge-kept-for-a-list-of-atoms", init.where(bad) if bad is not None else init.where(),
+               f"{n} store(s) to self.charge; where a list of atoms is given, a falsy charge is replaced by 0 only",
+               f"`{short(bad, 60) if bad is not None else ''}` tests `charge` by truthiness and puts something else in its place: the 0 that join computed (qA + qB = 0) or was given "
+               "(charge=0) is silently replaced - the product of joining a cation and an anion carries the sum of formal charges instead")
+
+
+def r8_copy_atoms_reaches_the_base(chk):
+    """join builds its product with `copy_atoms=True`; the flag travels up the constructor chain to Promolecule, which makes the copies.
+    A constructor on the way that drops it makes join adopt (and re-parent) the atoms of its inputs - the clause C06.R7 decides."""
+    from . import c06
+
+    chk.borrow("C12.R8", c06.r7_ctor_forwarding, chk, only=lambda o: o["construct"].endswith(":forwards:copy_atoms"))
 
 
 def r6_iterated_join(chk):
@@ -137,7 +178,7 @@ def r6_iterated_join(chk):
                "(each join deletes one attachment atom in front of the later ones) - the product is a different regio-isomer, or an attachment atom is addressed that is no longer one")
     # `ap - k` (and walking both sequences from the back) is the right address only if the attachment indices come in ascending
     # order: an attachment point consumed earlier shifts a later one only when it precedes it in the atom list
-    if ok and not order_free:
+    if ok:
         m = f.module
         callers = [(g, c) for g in prog.functions(["molli.scripts.combine"]) for c in walk_no_nested(g.node)
                    if isinstance(c, ast.Call) and call_name(c) == "_ml_assemble" and len(c.args) >= 2]
@@ -170,6 +211,26 @@ def r6_iterated_join(chk):
                 return txt in (f"list(map({core}.index_atom, {core}.attachment_points))", f"[{core}.index_atom(a) for a in {core}.attachment_points]",
                                f"list(map({core}.get_atom_index, {core}.attachment_points))", f"[{core}.get_atom_index(a) for a in {core}.attachment_points]")
 
+            if order_free:
+                # the shift does not care about the order - the *pairing* does: the k-th substituent of a combination goes to the
+                # attachment point named by the k-th label.  Where the indices are collected label by label, nothing may re-order them.
+                for b in branches:
+                    inner = b.elt if isinstance(b, ast.ListComp) and len(b.generators) == 1 else None
+                    if inner is None:
+                        continue
+                    core = norm(b.generators[0].target)
+                    by_label = [gen for x in ast.walk(inner) if isinstance(x, (ast.ListComp, ast.GeneratorExp)) for gen in x.generators
+                                if norm(gen.iter).endswith("attachment_points") and not norm(gen.iter).startswith(core + ".")]
+                    if not by_label:
+                        continue
+                    ro = [x for x in ast.walk(inner) if isinstance(x, ast.Call) and (call_name(x) or "").split(".")[-1] in ("sorted", "set", "frozenset", "reversed", "unique")]
+                    ro += [x for x in ast.walk(inner) if isinstance(x, (ast.Set, ast.SetComp))]
+                    chk.decide(not ro, "C12.R6", f"{f.key}:attachment-indices-in-label-order", g.where(ro[0] if ro else b),
+                               "the indices collected from the labels keep the order of the labels",
+                               f"{g.qualname} re-orders the attachment indices it collected label by label (`{short(ro[0], 50) if ro else ''}`): the k-th substituent of a combination no "
+                               "longer goes to the attachment point named by the k-th label - with labels given out of atom order the substituents land on each other's positions "
+                               "and the molecule named core_sub1_sub2 is another regio-isomer")
+                continue
             bad = [b for b in branches if not ascending(b)]
             chk.decide(not bad, "C12.R6", f"{f.key}:attachment-indices-ascending", g.where(bad[0] if bad else c),
                        "every list of attachment indices handed over is in atom order",
